@@ -1,6 +1,8 @@
 pub mod common;
 pub mod c01;
 pub mod cap;
+pub mod text;
+pub mod c06;
 pub mod c07;
 pub mod c08;
 pub mod c10;
@@ -19,10 +21,13 @@ pub fn registry() -> Vec<PropEntry> {
         PropEntry { id: "C01", run: c01::run, replay: c01::replay },
         PropEntry { id: "C02", run: cap::c02_run, replay: cap::c02_replay },
         PropEntry { id: "C03", run: cap::c03_run, replay: cap::c03_replay },
+        PropEntry { id: "C04", run: text::c04_run, replay: text::c04_replay },
+        PropEntry { id: "C06", run: c06::run, replay: c06::replay },
         PropEntry { id: "C07", run: c07::run, replay: c07::replay },
         PropEntry { id: "C08", run: c08::run, replay: c08::replay },
         PropEntry { id: "C09", run: cap::c09_run, replay: cap::c09_replay },
         PropEntry { id: "C10", run: c10::run, replay: c10::replay },
         PropEntry { id: "C11", run: cap::c11_run, replay: cap::c11_replay },
+        PropEntry { id: "C17", run: text::c17_run, replay: text::c17_replay },
     ]
 }
